@@ -187,7 +187,7 @@ Proof.
     destruct H as (H1 & H2 & H3 & H4 & _). rewrite app_nil_r. auto.
   - eapply add_symbol_spec in H; [|apply same_arenas_refl|reflexivity|reflexivity].
     destruct H as (H1 & H2 & H3 & H4 & _). rewrite app_nil_r. auto.
-  - eapply add_symbol_spec in H; [|apply same_arenas_refl|reflexivity|reflexivity].
+  - eapply add_symbol_spec in H; [|apply same_arenas_name_to_defset|reflexivity|reflexivity].
     destruct H as (H1 & H2 & H3 & H4 & _). rewrite app_nil_r. auto.
   - eapply add_symbol_spec in H; [|apply same_arenas_name_to_multiclass|reflexivity|reflexivity].
     destruct H as (H1 & H2 & H3 & H4 & _). rewrite app_nil_r. auto.
@@ -276,7 +276,8 @@ Proof.
   - apply add_symbol_ok. apply N.eqb_eq. exact H.
   - apply andb_true_iff in H. destruct H as [H _]. apply add_symbol_ok. apply N.eqb_eq. exact H.
   - apply add_symbol_ok. apply N.eqb_eq. exact H.
-  - apply add_symbol_ok. apply N.eqb_eq. exact H.
+  - apply add_symbol_ok. apply N.eqb_eq in H. rewrite H. symmetry. apply same_arenas_next_id.
+    apply same_arenas_name_to_defset.
   - apply add_symbol_ok. apply N.eqb_eq in H. rewrite H. symmetry. apply same_arenas_next_id.
     apply same_arenas_name_to_multiclass.
   - apply add_symbol_ok. apply N.eqb_eq. exact H.
